@@ -22,7 +22,7 @@ SOURCES = ['celt/entenc.c', 'celt/entdec.c', 'celt/entcode.c', 'celt/entcode.h',
 REQUIRED_THEOREMS = ['OpusProps.C08.rng_normalised', 'OpusProps.C08.tell_frac_bounds', 'OpusProps.C08.tell_frac_formula',
                      'OpusProps.C08.tell_monotone', 'OpusProps.C08.decode_encode', 'OpusProps.C08.lockstep_rng',
                      'OpusProps.C08.decode_encode_patched', 'OpusProps.C08.done_within_budget',
-                     'OpusProps.C08.outside_untouched', 'OpusProps.C08.lockstep_symbols']
+                     'OpusProps.C08.outside_untouched', 'OpusProps.C08.lockstep_symbols', 'OpusProps.C08.silk_flags_roundtrip']
 UNPROVED = []
 RULE = ('op sequences of length 1..4000 over all nine operation kinds (ec_encode, ec_encode_bin, ec_enc_bit_logp, ec_enc_icdf, '
         'ec_enc_icdf16, ec_enc_uint, ec_enc_bits, ec_enc_patch_initial_bits, ec_enc_shrink) drawn from the seed by a '
